@@ -203,4 +203,9 @@ def handleCostModel (args : List String) : Option CostModel × String :=
     | none => (none, "bad-costmodel")
   | none => (none, "bad-sexp")
 
+/-- `costpos`: does the installed cost model pass the decidable step-price check of `cek_terminates`? -/
+def handleCostPos : Option CostModel → String
+  | some cm => if stepsPositive cm then "pos" else "nonpos"
+  | none => "no-costmodel"
+
 end AikenVerif.Drivers.Cek
